@@ -211,9 +211,9 @@ def hierarchy_case(L):
 def cases(tier, seed):
     cs = []
     cs.append(Case("property hierarchy of depth 3 with a gap|L=%d" % (2 if tier == "quick" else 3), hierarchy_case(2 if tier == "quick" else 3), key="hierarchy-with-a-gap", reset=W.world_reset, validate=0, timeout=900, cex_grace=10**9))
-    L = 3 if tier == "quick" else 4
-    pops = [(2, 2, True), (3, 1, False)] if tier == "quick" else [(2, 2, True), (3, 2, True), (4, 1, False)]
-    for (n_org, n_hum, boss) in pops:
+    # thorough: one assertion more on the quick populations, and the quick length on larger populations
+    pops = [(2, 2, True, 3), (3, 1, False, 3)] if tier == "quick" else [(2, 2, True, 4), (3, 1, False, 4), (3, 2, True, 3), (4, 1, False, 3)]
+    for (n_org, n_hum, boss, L) in pops:
         # split by the first assertion for parallelism
         probe_first = []
         O = list(range(n_org)); H = list(range(n_org, n_org + n_hum)); B = [n_org + n_hum] if boss else []
@@ -236,7 +236,7 @@ def describe(tier):
         "over a population of orgs, humans and a boss role (harness ontology: WorksFor < MemberOf, Member inverse of MemberOf, HeadOf < WorksFor living on the role taker, "
         "transitive SubOrgOf; and Holds < Touches < Near without inverses on a class with all three fields and on one without the middle field) - all orders, diamonds and cycles within the bound; the relations in the real SymbolGraph must equal a reference fixpoint closure of the "
         "asserted facts and every managed field must hold exactly (as a set) the graph's outgoing relations for that field (multiplicities in list fields are C16's subject). non-trivial = every path asserts facts" % L,
-        bounds=dict(sequence_length=L, population="2 orgs + 2 humans + boss, 3 orgs + 1 human (quick); up to 4 orgs (thorough)"),
+        bounds=dict(sequence_length="3 (quick); 4 on the quick populations and 3 on 3 orgs + 2 humans + boss / 4 orgs + 1 human (thorough)", population="2 orgs + 2 humans + boss, 3 orgs + 1 human (quick); up to 4 orgs (thorough)"),
         outside=["re-assignment of a single-valued field (the earlier relation stays in the graph; the property does not say which wins)", "sequences longer than %d" % L],
         assumptions=["reference closure rules written from the declared semantics (sub-property => super-property, on the role taker where it lives; property => inverse; transitive closure)",
                      "solver role: the sequence is a vector of finite symbolic choices explored exhaustively"],
